@@ -22,6 +22,8 @@ func (t *MultivariantStart) unmarshal(v string) error {
 		return err
 	}
 
+	found := false
+
 	for key, val := range attrs {
 		if key == "TIME-OFFSET" {
 			var d primitives.Duration
@@ -30,10 +32,11 @@ func (t *MultivariantStart) unmarshal(v string) error {
 				return err
 			}
 			t.TimeOffset = time.Duration(d)
+			found = true
 		}
 	}
 
-	if t.TimeOffset == 0 {
+	if !found {
 		return fmt.Errorf("TIME-OFFSET missing")
 	}
 
